@@ -14,8 +14,8 @@ use ebml_iterable::TagWriter;
 pub static DEF: PropDef = PropDef {
     id: "C11",
     level: "exploration",
-    rule: "each case: one specification (zoo or random forest of masters with leaves at any depth, trailing and intermediate global placeholders with random bounds) and a random sample of valid chains of open masters (built by depth-first extension under the reference path matcher, depth <= 5 quick / 7 thorough, each chain master known- or unknown-size). For every chain and EVERY element of the specification: writer side — a fresh real TagWriter is driven through the chain's Starts (must all be accepted) and the element is written (masters as Start, also with the unknown-size option): Ok <=> reference match of the declared path against the chain, rejection must be UnexpectedTag carrying the element id; reader side — the same (chain, element) pair is rendered by the reference encoder (after a preceding complete root element so that the position is fixed) and read by the real strict iterator: the element must be emitted iff the reference accepts it against the chain that remains after closing the unknown-size masters it ends, otherwise HierarchyError carrying its id. distinct = (path-shape class of the element: ids-only / trailing global / intermediate global, bound class, chain depth, verdict, side); non-trivial iff the chain is non-empty.",
-    assumptions: &["reference path semantics = spec.rs::ref_path_match / ref_closes (pattern match with backtracking; globals never close)", "reader-side pairs where the element both closes an unknown-size master and would be a valid child of the full chain are ambiguous and skipped (counted)", "unknown size is only put on non-global chain masters on the reader side"],
+    rule: "each case: one specification (zoo or random forest of masters with leaves at any depth, trailing and intermediate global placeholders with random bounds) and a random sample of valid chains of open masters (built by depth-first extension under the reference path matcher, depth <= 5 quick / 7 thorough, each chain master known- or unknown-size). For every chain and EVERY element of the specification: writer side — a fresh real TagWriter is driven through the chain's Starts (must all be accepted) and the element is written (masters as Start, also with the unknown-size option): Ok <=> reference match of the declared path against the chain, rejection must be UnexpectedTag carrying the element id; reader side — the same (chain, element) pair is rendered by the reference encoder (after a preceding complete root element so that the position is fixed) and read by the real strict iterator: the element must be emitted iff the reference accepts it against the chain that remains after closing the unknown-size masters it ends, otherwise HierarchyError carrying its id; mid-document variant: the tail chain[j..] (all unknown-size, nothing in front) followed by an element with a fully named path that ends all of it (root element, sibling or declared ancestor of chain[j]) — the element must be emitted. distinct = (path-shape class of the element: ids-only / trailing global / intermediate global, bound class, chain depth, verdict, side); non-trivial iff the chain is non-empty.",
+    assumptions: &["reference path semantics = spec.rs::ref_path_match / ref_closes (pattern match with backtracking; globals never close)", "reader-side pairs where the element both closes an unknown-size master and would be a valid child of the full chain are ambiguous and skipped (counted)", "a chain master with a placeholder in its path gets unknown size only if no master further down the chain would end it (same declared path or declared ancestor)"],
     cases_quick: 15_000,
     cases_thorough: 200_000,
     floors: &[("writer_pairs", 20_000), ("reader_pairs", 20_000), ("distinct_nontrivial", 40), ("writer_accept", 1000), ("writer_reject", 1000), ("reader_accept", 1000), ("reader_reject", 1000), ("shape_intermediate-global_accept", 20), ("shape_intermediate-global_reject", 20), ("shape_trailing-global_accept", 20), ("shape_trailing-global_reject", 20)],
@@ -65,6 +65,15 @@ fn sample_payload(e: &Elem) -> Vec<u8> {
     }
 }
 
+/// `next` has the same declared path as the open master (a "sibling", e.g. the master nested in itself) or is named in
+/// its declared path (an "ancestor") — whether or not `next` has a placeholder in its own path.
+fn looks_like_closer(spec: &Spec, open_id: u64, next_id: u64) -> bool {
+    match (spec.get(open_id), spec.get(next_id)) {
+        (Some(open), Some(next)) => open.path == next.path || open.path.iter().any(|p| matches!(p, PP::Id(x) if *x == next.id)),
+        _ => false,
+    }
+}
+
 fn run(c: &mut Case) {
     let spec: Spec = match c.rng.below(8) {
         0 => gen::z_kitchen(true),
@@ -94,7 +103,15 @@ fn run(c: &mut Case) {
     }
     for chain in &chains {
         // known/unknown choice per chain master
-        let unk: Vec<bool> = chain.iter().map(|id| c.rng.chance(1, 3) && !spec.get(*id).unwrap().is_global()).collect();
+        // unknown size on a third of the chain masters — also on masters with a placeholder in their path, unless a master
+        // further down the chain would itself end it (same declared path, e.g. a master nested in itself, or a declared
+        // ancestor): then the rendered chain would not be the chain the reader sees
+        let mut unk: Vec<bool> = chain.iter().map(|_| c.rng.chance(1, 3)).collect();
+        for i in 0..chain.len() {
+            if unk[i] && spec.get(chain[i]).unwrap().is_global() && chain[i + 1..].iter().any(|later| looks_like_closer(&spec, chain[i], *later)) {
+                unk[i] = false;
+            }
+        }
         let chain_desc = || J::Arr(chain.iter().zip(unk.iter()).map(|(id, u)| J::s(format!("{}{}", spec.get(*id).unwrap().name, if *u { "(unknown-size)" } else { "" }))).collect());
         for e in &spec.elems {
             let expect = ref_path_match(&e.path, chain);
@@ -139,6 +156,39 @@ fn run(c: &mut Case) {
                     c.nontrivial(mix(hash_str(&format!("w{}{}{}{}", shape(e), bound_class(e), chain.len(), expect)), unknown_variant as u64));
                 }
             }
+            // ---------------- reader side, stream that starts in the middle of a document (a seeked reader)
+            // The stream is the tail chain[j..] (all unknown-size) and then `e`. Only the clear-cut pairs are judged: `e` has a
+            // fully named path and ends everything rendered (it is a root element, or has the declared path of chain[j], or
+            // is named in it). Whatever ancestors the reader infers, an element that closes the open unknown-size masters is
+            // judged against what remains — only inferred ancestors, which `e` itself determines — so it must be emitted.
+            if chain.len() >= 2 && !e.is_global() {
+                let j = c.rng.urange(1, chain.len() - 1);
+                let tail = &chain[j..];
+                let internal = (0..tail.len()).any(|i| tail[i + 1..].iter().any(|later| looks_like_closer(&spec, tail[i], *later)));
+                if !internal && (e.is_root() || looks_like_closer(&spec, chain[j], e.id)) {
+                    let mut node = RNode { id: e.id, sz: RSz::Min, body: if e.ty == Ty::Master { RBody::Master(vec![]) } else { RBody::Payload(sample_payload(e)) } };
+                    // e is a *sibling* of the rendered tail, not its child: [tail (nested, unknown-size), e]
+                    let mut tail_node: Option<RNode> = None;
+                    for id in tail.iter().rev() {
+                        tail_node = Some(RNode { id: *id, sz: RSz::Unknown(c.rng.urange(1, 8)), body: RBody::Master(tail_node.take().into_iter().collect()) });
+                    }
+                    let nodes = vec![tail_node.unwrap(), std::mem::replace(&mut node, RNode { id: 0, sz: RSz::Min, body: RBody::Master(vec![]) })];
+                    let (bytes, _lay) = enc_tree(&nodes);
+                    let cfg = RCfg { allow: 0, buffered: vec![], capacity: None, max_size: MaxSz::Set(Some(1 << 20)), eof_end: true };
+                    let p = parse_slice(&bytes, &cfg);
+                    c.eval();
+                    c.count("reader_middoc_pairs");
+                    let starts_ok = p.items.len() >= tail.len() && p.items[..tail.len()].iter().zip(tail.iter()).all(|((it, _), id)| it.is_start() && it.id() == *id);
+                    let emitted = p.items.iter().skip(tail.len()).any(|(it, _)| it.id() == e.id && !it.is_end());
+                    if !(starts_ok && emitted) {
+                        c.violation(
+                            format!("C11/reader/mid-document/closer-rejected/{}/{}", if e.is_root() { "root" } else if spec.get(chain[j]).map(|x| x.path == e.path).unwrap_or(false) { "sibling" } else { "ancestor" }, match &p.end { Ev::Err(er) => er.kind(), _ => "none" }),
+                            format!("stream starting mid-document with unknown-size masters {:x?} followed by {} (which ends them all): the element was not emitted; parse ended with {}", tail, spec.path_str(e), p.end.short()),
+                            J::obj().set("side", J::s("reader, mid-document")).set("spec", spec.to_json()).set("rendered_tail_of_chain", J::Arr(tail.iter().map(|i| J::s(spec.get(*i).unwrap().name.clone())).collect())).set("element", J::s(spec.path_str(e))).set("bytes", J::s(hex_short(&bytes, 300))).set("read", p.to_json(40)),
+                        );
+                    }
+                }
+            }
             // ---------------- reader side
             // remaining chain after closing the run of unknown-size masters at the top that `e` ends
             let mut remaining = chain.len();
@@ -153,6 +203,23 @@ fn run(c: &mut Case) {
             if remaining < chain.len() && expect {
                 c.count("reader_ambiguous_skipped");
                 continue;
+            }
+            // an element with a placeholder in its own path directly after an open unknown-size master that it could end
+            // as a "sibling" (same declared path) or "ancestor" is the inherently ambiguous case: child or closer?
+            if e.is_global() {
+                let mut amb = false;
+                for i in (0..chain.len()).rev() {
+                    if !unk[i] {
+                        break;
+                    }
+                    if looks_like_closer(&spec, chain[i], e.id) {
+                        amb = true;
+                    }
+                }
+                if amb {
+                    c.count("reader_ambiguous_skipped");
+                    continue;
+                }
             }
             let expect_r = ref_path_match(&e.path, &chain[..remaining]);
             // render: a complete root leaf/master first (fixes the position), then the chain with e inside
